@@ -257,3 +257,59 @@ func MultiFile(p *spec.Program, n int) *spec.Program {
 	}
 	return q
 }
+
+// ForeignProgram: a file whose messages reference message types of OTHER Go packages, several of which
+// share the last element of their import path (alpha/v1, beta/v1, delta/v1; eps/types, zeta/types) — the
+// qualifiers the generator hands out for them must not depend on anything but the request.
+func ForeignProgram() *spec.Program {
+	p := &spec.Program{File: "p.proto", Package: "p"}
+	thing := func(prefix string) []spec.Message {
+		return []spec.Message{
+			{Name: "Thing", Fields: []spec.Field{{Name: prefix + "Str", Num: 1, Kind: spec.KString}, {Name: prefix + "Num", Num: 2, Kind: spec.KInt64}}},
+			{Name: "Other", Fields: []spec.Field{{Name: prefix + "Flag", Num: 1, Kind: spec.KBool}, {Name: prefix + "Tags", Num: 2, Kind: spec.KString, Card: spec.CardList}}},
+		}
+	}
+	for _, ff := range [][3]string{
+		{"alpha/v1/alpha.proto", "alpha.v1", "example.com/alpha/v1"},
+		{"beta/v1/beta.proto", "beta.v1", "example.com/beta/v1"},
+		{"gamma/v2/gamma.proto", "gamma.v2", "example.com/gamma/v2"},
+		{"delta/v1/delta.proto", "delta.v1", "example.com/delta/v1"},
+		{"eps/types/eps.proto", "eps.types", "example.com/eps/types"},
+		{"zeta/types/zeta.proto", "zeta.types", "example.com/zeta/types"},
+	} {
+		pre := strings.ToUpper(ff[1][:1]) + ff[1][1:strings.Index(ff[1], ".")]
+		p.Foreign = append(p.Foreign, spec.ForeignFile{File: ff[0], ProtoPackage: ff[1], GoPackage: ff[2], Messages: thing(pre)})
+	}
+	m := func(name string, ref string, card string, num int32, nullable bool) spec.Field {
+		return spec.Field{Name: name, Num: num, Kind: spec.KMessage, Ref: ref, Card: card, Nullable: nullable}
+	}
+	p.Messages = []spec.Message{
+		{Name: "Local", Fields: []spec.Field{{Name: "LStr", Num: 1, Kind: spec.KString}}},
+		{Name: "Holder", Fields: []spec.Field{
+			{Name: "Name", Num: 1, Kind: spec.KString},
+			m("Alpha", "alpha.v1.Thing", "", 2, true), m("Zeta", "zeta.types.Thing", "", 3, true),
+			m("Gammas", "gamma.v2.Thing", spec.CardList, 4, true), m("ByKey", "delta.v1.Thing", spec.CardMap, 5, true),
+			m("Eps", "eps.types.Other", "", 6, false), m("Beta", "beta.v1.Thing", "", 7, true), m("Local", "Local", "", 8, true),
+		}},
+		{Name: "Second", Fields: []spec.Field{
+			m("B", "beta.v1.Other", "", 1, true), m("A", "alpha.v1.Other", "", 2, true), m("D", "delta.v1.Other", spec.CardList, 3, true),
+			{Name: "Note", Num: 4, Kind: spec.KString},
+		}},
+	}
+	p.Config = spec.Config{Types: []string{"Holder", "Second", "Local"}}
+	return p
+}
+
+// ForeignConfigs: without and with import path overrides / a separate target package.
+func ForeignConfigs(p *spec.Program) []spec.Config {
+	a := p.Config.Clone()
+	b := p.Config.Clone()
+	b.Sort = true
+	b.TargetPackageName = "outpkg"
+	b.DefaultPackageName = "example.com/api/p"
+	b.ImportPathOverrides = map[string]string{"v1": "example.com/moved/v1", "example.com/alpha/v1": "example.com/moved/alpha/v1",
+		"types": "example.com/moved/types", "example.com/zeta/types": "example.com/zz/types", "v2": "example.com/moved/v2"}
+	b.ComputedFields = []string{"Holder.Alpha", "Holder.Alpha.AlphaStr", "Thing.BetaNum"}
+	b.ExcludeFields = []string{"Other.EpsTags"}
+	return []spec.Config{a, b}
+}
